@@ -97,5 +97,23 @@ def run(c):
             'post': [options.at_level, bool(options.all), options.only_level, bool(options.unit), bool(options.non_unit)]}
 
 
+def aborted_parse(k):
+    """A call of get_options that ends inside the option parser (--help, an unknown option), with script-supplied defaults: an
+    embedding program that catches the SystemExit and goes on must find later calls unaffected."""
+    import contextlib
+    defaults = [['--at-level', '3'], ['--unit'], ['--non-unit', '--all'], ['--only-level', '2', '--layer', 'zzz']][k % 4]
+    argv = ['prog'] + [['--no-such-option'], ['--help']][k % 2]
+    try:
+        with contextlib.redirect_stdout(io.StringIO()), contextlib.redirect_stderr(io.StringIO()):
+            get_options(argv, list(defaults))
+    except SystemExit:
+        pass
+
+
 cases = json.load(sys.stdin)
-json.dump([run(c) for c in cases], sys.stdout)
+out = []
+for k, c in enumerate(cases):
+    if k % 7 == 3:
+        aborted_parse(k)
+    out.append(run(c))
+json.dump(out, sys.stdout)
